@@ -49,7 +49,7 @@ class Session:
         Session._n += 1
         self.key = (asn4, addpath, ibgp, extnh)
         peer_as = 65000 if ibgp else 65001
-        addr = f'127.0.{Session._n % 250}.{2 + Session._n // 250}'
+        addr = f'127.{(Session._n // 62500) % 250}.{(Session._n // 250) % 250}.{2 + Session._n % 250}'
         text = f"""
 neighbor {addr} {{
   router-id 1.2.3.4;
